@@ -63,7 +63,8 @@ def catalogue(dep: dict, r) -> List[Tuple[str, str, List[Tuple[int, int]]]]:
             ("server-kind", f'<setTextVector device="{dev}" name="{v1["name"]}" state="Ok"><oneText name="{v1["elems"][0]}">zzz</oneText></setTextVector>', []),
             ("server-kind", f'<delProperty device="{dev}"/>', []), ("server-kind", f'<message device="{dev}" message="hi"/>', []),
             ("server-kind", '<pingRequest uid="1"/>', []), ("server-kind", '<pingReply uid="1"/>', []), ("server-kind", '<oneLight name="x">Ok</oneLight>', []),
-            ("enable-unknown", '<enableBLOB device="NOSUCH">Also</enableBLOB>', []), ("get-unknown", '<getProperties version="1.7" device="NOSUCH"/>', []),
+            ("enable-unknown", '<enableBLOB device="NOSUCH">Also</enableBLOB>', []), ("enable-known", f'<enableBLOB device="{dev}">Also</enableBLOB>', []),
+            ("enable-named", f'<enableBLOB device="{dev}" name="{v1["name"]}">Never</enableBLOB>', []), ("get-unknown", '<getProperties version="1.7" device="NOSUCH"/>', []),
             ("get-empty-device", '<getProperties version="1.7" device="" name="X"/>', [])]
     return out
 
@@ -98,7 +99,10 @@ def session(dep: dict, transport: str, items: List[Tuple[str, str, List[Tuple[in
             loop.settle()
         else:
             handler = Rec()
-            w.router.register_client(handler)
+            if transport == "direct":
+                w.router.register_client(handler)
+            # transport "anon": a sender the router does not know (never registered, or already forgotten): its messages are
+            # handled all the same and nothing may be raised; "registered" then means: it is still not registered
             task = None
         events = []
 
@@ -115,7 +119,7 @@ def session(dep: dict, transport: str, items: List[Tuple[str, str, List[Tuple[in
                 return split_messages(bytes(writer.sink).decode("latin1"))
             if transport == "tty":
                 return split_messages("".join(stdout.sink))
-            return [m.to_string().decode() for m in handler.got]
+            return [m.to_string().decode() for m in (other.got if transport == "anon" else handler.got)]
 
         def send(xml: str) -> str:
             raised = ""
@@ -142,14 +146,14 @@ def session(dep: dict, transport: str, items: List[Tuple[str, str, List[Tuple[in
             return raised
 
         def status():
-            return {"registered": handler in w.router.clients, "closed": bool(transport == "tcp" and writer.closed),
+            return {"registered": (handler in w.router.clients) != (transport == "anon"), "closed": bool(transport == "tcp" and writer.closed),
                     "othersOK": other in w.router.clients and w.client in w.router.clients}
 
         def snap():
             p = w.project()
             return {(vi + 1, ei + 1): x for vi, row in enumerate(p["val"]) for ei, x in enumerate(row)}, (p["vst"], p["ven"], p["gen"])
         for label, xml, allowed in items:
-            if transport == "direct":
+            if transport in ("direct", "anon"):
                 try:
                     from indi.message import IndiMessage as _IM
                     _IM.from_string(xml)
@@ -187,8 +191,11 @@ def run_into(v, tier: str, r) -> None:
         cat = catalogue(dep, r)
         r.shuffle(cat)
         per = 25 if tier == "quick" else 60
-        for transport in ("tcp", "tty", "direct"):
-            traces.append(session(dep, transport, cat[:per], r))
+        always = [c for c in cat if c[0].startswith("enable")]
+        for transport in ("tcp", "tty", "direct", "anon"):
+            items = cat[:per] + [c for c in always if c not in cat[:per]]
+            r.shuffle(items)
+            traces.append(session(dep, transport, items, r))
     for t in traces:
         for e in t:
             v.evaluations += 1
